@@ -559,23 +559,37 @@ def rule_noise_update(ctx, rid):
     vals = []
     for node, sms in ev.loops_seen.items():
         for sm in sms:
-            # the noise matrix is whichever variable is combined with a pool map of `sift` (found by role)
+            # the noise matrix is found by role, not by name: the variable whose value is <noise> (op) <something drawn
+            # from a pool map>, where <noise> is rooted in a numpy.random draw (before the loop) or is the loop-head
+            # value of a variable that was (inside the loop)
+            def noisy(t_, entry):
+                for x in subterms(t_):
+                    if x[0] == 'call' and x[1].startswith('numpy.random.'):
+                        return True
+                    if x[0] == 's' and '@' in x[1]:
+                        ev_ = entry.get(x[1].split('@')[0])
+                        if ev_ is not None and any(y[0] == 'call' and y[1].startswith('numpy.random.')
+                                                   for y in subterms(ev_)):
+                            return True
+                return False
+
+            def pooled(t_):
+                return any(x[0] == 'meth' and x[1] in ('starmap', 'map', 'imap') for x in subterms(t_))
             for nm_, t in sorted(sm.entry_env.items()):
-                if t is not None and t[0] == 'bin':
+                if t is not None and t[0] == 'bin' and noisy(t[2], sm.entry_env) and pooled(t[3]) and not pooled(t[2]):
                     vals.append(('before the layer loop', t, sm.entry_env))
             for passno, how, e in sm.ends:
                 if how == 'continue':
                     for nm_, t in sorted(e.env.items()):
-                        if t is not None and t[0] == 'bin':
+                        if t is not None and t[0] == 'bin' and noisy(t[2], sm.entry_env) and pooled(t[3]) \
+                                and not pooled(t[2]):
                             vals.append(('in the layer loop', t, e.env))
     n = 0
     bad = None
+    wheres = set()
     for where, t, env in vals:
-        is_upd = t[0] == 'bin' and any(x[0] == 'meth' and x[1] in ('starmap', 'map') and x[3] and
-                                        x[3][0] in (('ref', 'emd.sift.sift'), ('func', 'emd.sift.sift'))
-                                        for x in subterms(t[3]) if isinstance(x, tuple))
-        if not is_upd:
-            continue
+        is_upd = True
+        wheres.add(where)
         if t[0] == 'bin' and t[1] != '-' and is_upd:
             bad = '%s: the first IMFs of the noise columns are combined with the noise by `%s`, not subtracted from it' % (where, t[1])
             break
@@ -630,7 +644,8 @@ def rule_noise_update(ctx, rid):
             break
     if bad:
         ctx.violation(rid, fi, c, bad)
-    elif n < 2:
-        ctx.undecided(rid, fi, c, 'expected a noise update before and inside the layer loop, found %d' % n)
+    elif n < 2 or len(wheres) < 2:
+        ctx.undecided(rid, fi, c, 'expected a noise update before and inside the layer loop, found %d (%s)'
+                      % (n, ', '.join(sorted(wheres)) or 'none'))
     else:
         ctx.passed(rid, fi, c, '%d update states' % n)
